@@ -2,6 +2,7 @@ import Driver.Util
 import MpcVerif.Model.Determinism
 import MpcVerif.Model.ProcState
 import MpcVerif.Model.ProcSteps
+import MpcVerif.Model.ProcConc
 
 namespace Drv.C08
 open Mpc Mpc.Det Drv
@@ -84,6 +85,13 @@ def renderOut (k : PSt.Kind) (o : PSt.Out) : String :=
   | .stream => v
   | .ssa => "ssa"
 
+/-- one element of a history with concurrent elements: `<schedule>@<step>&<step>&...`, schedule = `-` or the indices of
+the steps in the order of their micro-steps -/
+def parseElement (s : String) : Option (List Nat × List (PSt.Req Unit)) :=
+  match s.splitOn "@" with
+  | [sched, steps] => do some (← (listOf sched).mapM (·.toNat?), ← (steps.splitOn "&").mapM parseReq)
+  | _ => none
+
 /--
 `dc <hex names in hand-over order>`            → names in the order DefineConstants wires them
 `ts <hexkey=val,...> <t>`                      → key found by Type.String's search, or `none`
@@ -93,6 +101,10 @@ def renderOut (k : PSt.Kind) (o : PSt.Out) : String :=
                                                  process (`PSt.outputsAlong PSt.stepNow`), `src` = `w:op:x:y,...`
 `ahist <step>;<step>;...`                      → the outputs of every step of a one-process history over ALL step kinds
                                                  (`PSt.outputsAlongK PSt.stepNowK`), see `parseReq` / `renderOut`
+`chist <element>;<element>;...`                → the outputs of every step of a one-process history whose elements are
+                                                 CONCURRENT (`PSt.runElements PSt.microNow` over the micro-steps
+                                                 `PSt.microsK` of every step, under the element's schedule, put together
+                                                 by `PSt.assembleK`), see `parseElement`
 -/
 def handle (args : List String) : String :=
   match args with
@@ -147,6 +159,13 @@ def handle (args : List String) : String :=
     | some reqs =>
       let outs := PSt.outputsAlongK (PSt.stepNowK (σ := Unit) (π := Unit)) () reqs
       ";".intercalate ((reqs.zip outs).map fun (r, o) => renderOut r.kind o)
+  | ["chist", hist] =>
+    match (hist.splitOn ";").mapM parseElement with
+    | none => "bad-op"
+    | some els =>
+      let outs := PSt.runElements (PSt.microNow (σ := Unit)) () (els.map fun e => (e.1, e.2.map PSt.microsK))
+      ";".intercalate ((els.zip outs).map fun (e, o) =>
+        "&".intercalate ((e.2.zip o).map fun (r, ps) => renderOut r.kind (PSt.assembleK ps)))
   | ["fhist", lib, root, calls, n] =>
     -- failing compilation (n function instances done), good one, failing one, good one - on one Compiler
     match n.toNat?, parseLib lib with
